@@ -152,6 +152,22 @@ def cases_for(tier, rng):
     for pg in progs8:
         cases.append(dict(prog=[T('pre')] + pg + tail, src=sources(kw=ns8), K=0, fk=[]))
         cases.append(dict(prog=[T('pre')] + pg + tail, src=sources(kw=dict(NS, fx=fn('FX', plain('fine')))), K=2, fk=['Cancelled']))
+    # 9. a template that calls itself (a recursive method) from a finally body / handler while its own dtml-return is pending:
+    #    every call returns its own value
+    def rec(body):
+        return tmpl('rec', body, {})
+    again = [If([(N('d1'), [Let([('d1', N('zero')), ('rv', N('other'))], [T('{'), V('rec'), T('}')])])])]
+    bodies9 = [
+        [TryF([T('b'), Return(N('rv')), T('no')], [T('F')] + again)],
+        [TryF([TryF([Return(N('rv'))], [T('F1')] + again)], [T('F2'), V('f1')])],
+        [Try([raiser('KeyError', 'k')], [(['KeyError'], [TryF([Return(N('rv'))], again)])], None)],
+        [TryF([T('b')] + again + [Return(N('rv'))], [T('F'), V('f2')])],
+        [In(N('seq'), [TryF([Return(N('rv'))], again)])],
+    ]
+    for bd in bodies9:
+        ns9 = dict(NS, rec=rec(bd), d1=plain('yes'), zero=plain('z', False), rv=plain('OUTER'), other=plain('INNER'))
+        cases.append(dict(prog=[T('<'), V('rec'), T('>')] + tail, src=sources(kw=ns9), K=0, fk=[]))
+        cases.append(dict(prog=[T('<'), Try([V('rec')], [([], [T('H')])], [T('E')]), T('>')] + tail, src=sources(kw=ns9), K=2, fk=['ValueError']))
     # 5. sub-template: return ends only the sub-template's call
     sub = tmpl('sub', [T('S1'), Try([Return(N('rv'))], [([], [T('never')])], None), T('S2')])
     ns = dict(NS, sub=sub)
